@@ -57,6 +57,13 @@ Check (C10_remembered_not_own_listen :
     (last a (Other 0) = P2p p /\ enabled c (route c a) = true /\
      exists ho port, parse (route c a) a = Some (ho, port, Some p)) /\
     forall l, In l L0 -> strip_p2p a <> l /\ strip_p2p a <> l ++ [P2p (local_peer c)]).
+Check (C10_api_histories :
+  forall c k L0 h p s a z,
+    Forall api_op h ->
+    get p (bk (fst (run c k (mkState [] L0 0 []) h))) = Some s -> In (a, z) s ->
+    (last a (Other 0) = P2p p /\ enabled c (route c a) = true /\
+     exists ho port, parse (route c a) a = Some (ho, port, Some p)) /\
+    forall l, In l L0 -> strip_p2p a <> l /\ strip_p2p a <> l ++ [P2p (local_peer c)]).
 Check (C10_dial_address_filter :
   forall c st a t q,
     dial_addr_check c st a = DAOk t q ->
@@ -236,6 +243,16 @@ Check (C10_dial_address_new_step :
   (exists s', get q (bk st') = Some s' /\ find a s' = Some sc /\ keys s' = keys s ++ [a] /\
               forall b, b <> a -> find b s' = find b s) /\
   (forall p, p <> q -> get p (bk st') = get p (bk st))).
+Check (C10_dial_address_refused_step :
+  forall c k st a vs t q,
+  dial_addr_check c st a = DAOk t q ->
+  let s := get_or_empty q (bk st) in
+  let st' := fst (step c k st (ODialAddrRefused a vs)) in
+  (forall z0, find a s = Some z0 -> get q (bk st') = Some s) /\
+  (find a s = None -> (length s < cap k)%nat ->
+     get q (bk st') = Some (s ++ [(a, new_score k a 0%Z)])) /\
+  (forall p, p <> q -> get p (bk st') = get p (bk st)) /\
+  lst st' = lst st /\ held st' = held st /\ pubs st' = pubs st).
 Check (C10_saturation :
   forall a b,
   in_i32 (sat_add a b) /\
